@@ -1,5 +1,6 @@
 import Driver.Common
 import Driver.CertShow
+import Rpki.Model.CertEnc
 import Rpki.Model.Manifest
 import Rpki.Model.Crl
 import Rpki.Model.Roa
@@ -227,7 +228,15 @@ def handle (toks : List String) (impl : String) : Verdict :=
           else if kind = "idcert" then Driver.CertShow.idcLine b
           else if kind = "sigmsg" then Driver.CertShow.smsgLine b
           else Driver.CertShow.cmsLine kind b
-        { mismatch := if m = lib then none else some m,
+        -- a certificate the library built (or any canonical one): writing the decoded fields again with the model of
+        -- `TbsCert::encode_ref` must give the to-be-signed octets the library wrote
+        let enc : Option String :=
+          if kind = "cert" then
+            match Rpki.CertDer.decodeCert b with
+            | some d => if Rpki.CertEnc.encodeTbs d = d.tbs then none else some "CertEnc.encodeTbs of the decoded fields differs from the to-be-signed octets"
+            | none => none
+          else none
+        { mismatch := if m = lib then enc else some m,
           oracle := if lib = "panic" then some "decoding a library-built object panicked" else none }
     | [] => badOp "result"
   | ["crlx", entries, probes] => handleCrl entries probes impl
